@@ -20,7 +20,7 @@ def invariant(*clauses, **kw):
 class Contract:
 	def __init__(self, qualname, types=None, requires=(), ensures=(), raises=None, returns=None, yields=None,
 	             loops=None, writes=(), inline=False, instances=None, assume_after=None, prop=None,
-	             ghost=None, trusted=False, ensures_raise=None, note=None, may_raise=(), lemmas=(), axioms=(), after_loop=None, before_loop=None):
+	             ghost=None, trusted=False, ensures_raise=None, note=None, may_raise=(), lemmas=(), axioms=(), after_loop=None, before_loop=None, hints=None, self_fields=None):
 		self.qualname = qualname
 		self.types = types or {}
 		self.requires = list(requires)
@@ -41,6 +41,8 @@ class Contract:
 		self.note = note
 		self.lemmas = list(lemmas)           # instantiated lemma statements (clauses) assumed at entry
 		self.after_loop = after_loop or {}
+		self.hints = hints or {}
+		self.self_fields = self_fields or {}   # for __init__ contracts: fields the constructor creates
 		self.before_loop = before_loop or {}
 		self.axioms = tuple(axioms)          # names of definitional axioms (spec.AXIOMS) added to the hypotheses
 
@@ -199,3 +201,32 @@ class Rec(TypeSpec):
 		r = Ref('record')
 		st.heap[r.addr] = Record(self.cls, {k: t.make(f'{name}.{k}', st, eng) for k, t in self.fields.items()})
 		return r
+
+
+
+class DictOf(TypeSpec):
+	"""dict with symbolic keys (heap object)"""
+
+	def __init__(self, K, V):
+		self.K, self.V = K, V
+
+	def make(self, name, st, eng):
+		from .interp import SDict
+		KT, VT = self.K.desc, self.V.desc
+		d = SDict(KT, VT, z3.Const(fresh_name(name + '_dom'), z3.ArraySort(KT.sort, B)), z3.Const(fresh_name(name + '_val'), z3.ArraySort(KT.sort, VT.sort)), None)
+		r = Ref('dict')
+		st.heap[r.addr] = d
+		return r
+
+
+
+class _F32(TypeSpec):
+	def make(self, name, st, eng):
+		return SF32(z3.Const(fresh_name(name), F32))
+
+	@property
+	def desc(self):
+		return TF32
+
+
+Float32 = _F32()
